@@ -939,3 +939,22 @@ func asBool(o Object) Boolean {
 //@ ensures [C02.load.found] result1 == nil && isType(key, Name) ==> (exists j :: 0 <= j && j < len(intp.DictStack) && has(intp.DictStack[j], key.(Name)) && result0 == intp.DictStack[j][key.(Name)] && (forall k :: j < k && k < len(intp.DictStack) ==> !has(intp.DictStack[k], key.(Name))))
 //@ ensures [C02.load.undefined] isType(key, Name) && (forall k :: 0 <= k && k < len(intp.DictStack) ==> !has(intp.DictStack[k], key.(Name))) ==> isPSErr(result1, eUndefined)
 //@ loop 1 invariant [C02.load] -1 <= j && j < len(intp.DictStack) && (forall k :: j < k && k < len(intp.DictStack) ==> !has(intp.DictStack[k], name))
+
+//@ func isStringOrArray
+//@ ensures result == (isType(o, String) || isType(o, Array))
+
+// C07: a range mapping is stored only if its bounds have equal length and are
+// not reversed (low <= high bytewise) and its destination has the type the
+// block kind allows (integer for cid and notdef ranges).
+//@ define rangeOrdered(r) = len(r.Low) == len(r.High) && bytes.Compare(r.Low, r.High) <= 0
+//@ func cidInit["endcidrange"]
+//@ ensures [C07.range.ordered] result == nil ==> (forall k :: 0 <= k && k < old(len(intp.cmapRanges)) ==> rangeOrdered(intp.cmapMappings.CidRanges[old(len(intp.cmapMappings.CidRanges)) + k]) && isInt(intp.cmapMappings.CidRanges[old(len(intp.cmapMappings.CidRanges)) + k].Dst))
+//@ loop 1 invariant [C07.range.ordered] forall k :: 0 <= k && k < i ==> rangeOrdered(intp.cmapRanges[k]) && isInt(intp.cmapRanges[k].Dst)
+
+//@ func cidInit["endnotdefrange"]
+//@ ensures [C07.range.ordered] result == nil ==> (forall k :: 0 <= k && k < old(len(intp.cmapRanges)) ==> rangeOrdered(intp.cmapMappings.NotdefRanges[old(len(intp.cmapMappings.NotdefRanges)) + k]) && isInt(intp.cmapMappings.NotdefRanges[old(len(intp.cmapMappings.NotdefRanges)) + k].Dst))
+//@ loop 1 invariant [C07.range.ordered] forall k :: 0 <= k && k < i ==> rangeOrdered(intp.cmapRanges[k]) && isInt(intp.cmapRanges[k].Dst)
+
+//@ func cidInit["endbfrange"]
+//@ ensures [C07.range.ordered] result == nil ==> (forall k :: 0 <= k && k < old(len(intp.cmapRanges)) ==> rangeOrdered(intp.cmapMappings.BfRanges[old(len(intp.cmapMappings.BfRanges)) + k]) && (isType(intp.cmapMappings.BfRanges[old(len(intp.cmapMappings.BfRanges)) + k].Dst, String) || isType(intp.cmapMappings.BfRanges[old(len(intp.cmapMappings.BfRanges)) + k].Dst, Array)))
+//@ loop 1 invariant [C07.range.ordered] forall k :: 0 <= k && k < i ==> rangeOrdered(intp.cmapRanges[k]) && (isType(intp.cmapRanges[k].Dst, String) || isType(intp.cmapRanges[k].Dst, Array))
